@@ -212,6 +212,18 @@ func execConcRun(in runIn, ev func(k string, f any)) []core.Violation {
 	store.emit("Reset", map[string]any{"prefix": 0, "forked": false, "cfg0": sumworld.HeadLabel{Kind: "empty", Tl: "P"}, "seed": in.Seed, "run": in.Run, "g": 0})
 	nclients := 1 + rng.Intn(3)
 	height := 1 + rng.Intn(8)
+	if in.Run == 0 {
+		// the first run of a recording works at the far end of a long log: 2001 records are in the log before the clients start,
+		// height 1 (their records lie in the level-0 tiles from number 1000 on, where tile paths get a second group of digits)
+		height = 1
+		for i := 0; i < 2001; i++ {
+			rr := httptest.NewRecorder()
+			srv.ServeHTTP(rr, httptest.NewRequest("GET", fmt.Sprintf("http://sum.example/lookup/example.com/earlier%d@v1.0.0", i), nil))
+			if rr.Code != http.StatusOK {
+				panic(fmt.Sprintf("filling the log: %d %s", rr.Code, rr.Body.String()))
+			}
+		}
+	}
 	keyOf := func(file string) (int, bool) {
 		i := strings.Index(file, "/lookup/")
 		if i < 0 {
